@@ -151,10 +151,11 @@ pub fn run(args: &Args) -> Report {
     );
     let c16 = oracle == "c16";
     let c17 = oracle == "c17";
-    let mut rep = pool::run_space(
+    let mut rep = pool::run_space_chunked(
         cases.len() as u64,
         crate::threads(args),
         crate::hang_after(args),
+        1,
         |i, rep| {
             let (fi, chunk) = cases[i as usize];
             let f = &files[fi];
